@@ -315,6 +315,72 @@ def relations(rng, tier, rpt):
     if (b32p.ToList(), r1, r2) != ([1, 2], [1, 2, 3], [1, 2, 4]):
         rep("Bip32Path.AddElem changes its receiver", "m/1/2", str((b32p.ToList(), r1, r2)), "([1, 2], [1, 2, 3], [1, 2, 4])")
     rpt.extra["parent_unchanged_checks"] = n_par
+    # (e) mnemonic objects and word lists handed to decoders / validators / seed generators are left as they were, whether the call
+    #     succeeds or fails, and asking twice gives the same answer
+    from bip_utils import (Bip39MnemonicValidator, Bip39SeedGenerator, MoneroMnemonicDecoder, MoneroMnemonicValidator, MoneroSeedGenerator, MoneroMnemonic,
+                           AlgorandMnemonicEncoder, AlgorandMnemonicDecoder, AlgorandMnemonic, ElectrumV1MnemonicEncoder, ElectrumV1MnemonicDecoder, ElectrumV1Mnemonic,
+                           ElectrumV2MnemonicGenerator, ElectrumV2MnemonicDecoder, ElectrumV2MnemonicTypes, ElectrumV2Mnemonic)
+    from bip_utils.utils.mnemonic import Mnemonic
+    e32 = bytes(range(32))
+    phrases = [
+        ("Bip39", Bip39Mnemonic, Bip39MnemonicEncoder().Encode(e32).ToList(), [lambda m: Bip39MnemonicDecoder().Decode(m), lambda m: Bip39MnemonicValidator().IsValid(m), lambda m: Bip39SeedGenerator(m).Generate()]),
+        ("Monero25", MoneroMnemonic, MoneroMnemonicEncoder().EncodeWithChecksum(e32).ToList(), [lambda m: MoneroMnemonicDecoder().Decode(m), lambda m: MoneroMnemonicValidator().IsValid(m), lambda m: MoneroSeedGenerator(m).Generate()]),
+        ("Monero13", MoneroMnemonic, MoneroMnemonicEncoder().EncodeWithChecksum(e32[:16]).ToList(), [lambda m: MoneroMnemonicDecoder().Decode(m), lambda m: MoneroMnemonicValidator().IsValid(m)]),
+        ("Monero24", MoneroMnemonic, MoneroMnemonicEncoder().EncodeNoChecksum(e32).ToList(), [lambda m: MoneroMnemonicDecoder().Decode(m)]),
+        ("Algorand", AlgorandMnemonic, AlgorandMnemonicEncoder().Encode(e32).ToList(), [lambda m: AlgorandMnemonicDecoder().Decode(m)]),
+        ("ElectrumV1", ElectrumV1Mnemonic, ElectrumV1MnemonicEncoder().Encode(e32[:16]).ToList(), [lambda m: ElectrumV1MnemonicDecoder().Decode(m)]),
+        ("ElectrumV2", ElectrumV2Mnemonic, ElectrumV2MnemonicGenerator(ElectrumV2MnemonicTypes.STANDARD).FromEntropy((1 << 131 | 777).to_bytes(17, "big")).ToList(),
+         [lambda m: ElectrumV2MnemonicDecoder().Decode(m)]),
+    ]
+    n_mn = 0
+    for name, mcls, good_words, fns in phrases:
+        variants = [("valid", list(good_words)), ("last word wrong", list(good_words[:-1]) + [good_words[0]]), ("one word short", list(good_words[:-1]))]
+        for vname, wlist in variants:
+            for mk_name, mk in (("%s.FromList" % mcls.__name__, mcls.FromList), ("Mnemonic.FromList", Mnemonic.FromList)):
+                for fi, fn in enumerate(fns):
+                    caller_list = list(wlist)
+                    obj = mk(caller_list)
+                    before = (list(caller_list), obj.ToList(), obj.ToStr(), obj.WordsCount())
+                    outs = []
+                    for _ in range(2):
+                        try:
+                            r = fn(obj)
+                            outs.append(r.hex() if isinstance(r, bytes) else str(r))
+                        except Exception as ex:  # noqa
+                            outs.append(type(ex).__name__)
+                    after = (list(caller_list), obj.ToList(), obj.ToStr(), obj.WordsCount())
+                    n_mn += 1
+                    if after != before:
+                        rep("%s: the caller's mnemonic object (or list) was modified by call #%d on a %s phrase given as %s" % (name, fi, vname, mk_name), " ".join(wlist), str(after[2]), str(before[2]))
+                    elif outs[0] != outs[1]:
+                        rep("%s: the same mnemonic object gives different answers when asked twice (call #%d, %s phrase)" % (name, fi, vname), " ".join(wlist), outs[1][:80], outs[0][:80])
+    rpt.extra["mnemonic_object_checks"] = n_mn
+    # (f) an object converted to public-only behaves as public-only whatever was called on it before (every wrapper with ConvertToPublic)
+    from bip_utils import Bip32KeyError
+    conv = [("Bip32Slip10Secp256k1", lambda: Bip32Slip10Secp256k1.FromSeed(sd), [3, 2**31 + 3]), ("Bip32KholawEd25519", lambda: Bip32KholawEd25519.FromSeed(sd), [3, 2**31 + 3])]
+    n_cv = 0
+    for name, mk, idxs in conv:
+        o = mk()
+        kids_before = [o.ChildKey(i) for i in idxs]
+        try:
+            o.DerivePath("0/1")
+        except Exception:  # noqa
+            pass
+        o.ConvertToPublic()
+        n_cv += 1
+        for i in idxs:
+            try:
+                k = o.ChildKey(i)
+                if i >= 2**31:
+                    rep("%s: after ConvertToPublic a hardened child (derived before the conversion) is still handed out" % name, str(i), "ok", "Bip32KeyError")
+                elif not k.IsPublicOnly():
+                    rep("%s: after ConvertToPublic a child derived before the conversion still holds a private key" % name, str(i), "private", "public-only")
+            except Bip32KeyError:
+                if i < 2**31:
+                    rep("%s: after ConvertToPublic a soft child is refused" % name, str(i), "Bip32KeyError", "public child")
+        if any(k.IsPublicOnly() for k in kids_before):
+            rep("%s: converting the parent changed child objects derived earlier" % name, name, "public-only", "unchanged")
+    rpt.extra["converted_after_use_checks"] = n_cv
     for name, a, b in (("Bip32Path(elems)", elems, e0), ("Mnemonic.FromList(words)", words, w0), ("CborIndefiniteLenArrayEncoder.Encode(list)", ints, i0),
                        ("SplToken.FindPda(seeds)", seeds, s0)):
         if a != b:
